@@ -19,7 +19,7 @@ import Optyx.Sexp
 import Optyx.Py.Degree
 import Optyx.Py.Coeffs
 
-namespace Optyx.Drive
+namespace Optyx.Drive.AnalysisNs
 open Optyx Optyx.Py
 
 def showDeg : Deg → String
@@ -171,4 +171,4 @@ def handleAnalysis (cmd : String) (args : List Sexp) : Option String :=
       | none => "bad-input"
   | _, _ => none
 
-end Optyx.Drive
+end Optyx.Drive.AnalysisNs
